@@ -242,6 +242,10 @@ class Ctx:
         with np.errstate(all='ignore'):
             err = np.abs(a.astype(np.complex128) - b.astype(np.complex128)).max()
         ok = bool(np.isfinite(err)) and err <= tol
+        if ok:  # worst accepted error per key, reported in the evidence
+            w = self.extra.setdefault('worst_accepted_err', {})
+            if err > w.get(key, -1.0):
+                w[key] = float(err)
         if not ok:
             w = {'max_abs_err': float(err) if np.isfinite(err) else repr(err), 'tol': float(tol), 'got': jsonable(a, 16),
                  'expected': jsonable(b, 16)}
